@@ -59,6 +59,14 @@ def run_spec(spec, pids=None):
         vs, _ = run_rules(pid, F)
         keys += [v["key"] for v in vs]
     res["violation_keys"] = keys[:12]
+    silent = spec.get("silent", [])
+    if pids and all(p in silent for p in pids):
+        # a breaking change for ANOTHER property that leaves this one intact: this property's check must stay quiet
+        res["kind"] = "mutant-of-another-property"
+        res["status"] = "ok" if not keys else "FAILED"
+        if keys:
+            res["detail"] = "alarm on a change that does not break this property"
+        return res
     if spec.get("kind", "mutant") == "refactor":
         res["status"] = "ok" if not keys else "FAILED"
         if keys:
@@ -76,7 +84,7 @@ def run_for_property(pid, only=None):
     out = []
     for spec in load_specs():
         props = [spec["property"]] if isinstance(spec["property"], str) else spec["property"]
-        if pid not in props:
+        if pid not in props and pid not in spec.get("silent", []):
             continue
         if only and spec["id"] not in only:
             continue
